@@ -210,3 +210,12 @@ Proof.
   - apply bisect_residual; [lra | assumption | assumption].
   - apply bisect_near_root; assumption.
 Qed.
+
+(* an eccentricity outside [0, 1) is refused with ValueError (guard added by /repo b141fbd) *)
+Lemma kepler_bad_ecc e M : e < 0 \/ 1 <= e ->
+  f_kepler_equation Rops (VFloat e) (ang M) = VErr ValueError.
+Proof.
+  intros [H | H].
+  - pyrunv. reflexivity.
+  - pyrunv. reflexivity.
+Qed.
